@@ -511,7 +511,7 @@ func atomicRead(f func() string) string {
 }
 
 func init() {
-	Register(&Scenario{Prop: "C16", Name: "concurrent-write-events", Run: scenC16Concurrent, Weight: 1,
+	Register(&Scenario{Prop: "C16", Name: "concurrent-write-events", Run: scenC16Concurrent, SoftParks: true, Weight: 1,
 		Rule: "store on P (key-value or event log) with a prompt event-bus subscriber (buffer 8192, reads as soon as an event is sent, so no back-pressure); 2-5 rounds of 2-4 concurrent local writers stopped at the three write-path points and released one step at a time in drawn order, while writes on Q are replicated into P; oracle: on receipt of each EventWrite / EventReplicated the announced entries are in the log, the listing, and the key-value view shows their effect or that of a later entry; exactly one EventWrite per successful write, carrying the entry that call returned; non-trivial = >=2 writers were parked together at least once"})
 }
 
